@@ -275,18 +275,276 @@ theorem data_sim {s s' : Send} {m : Mon} (hd : s.dead = false) (hm : m.dead = fa
     have g1 : ¬ (n : Int) > m.maxFrame := by rw [← h1]; omega
     have g2 : ¬ (0 < n ∧ (n : Int) > b) := by intro ⟨p, q⟩; have := t6.2 p; omega
     have g3 : ¬ (0 < n ∧ (n : Int) > m.connWin) := by intro ⟨p, q⟩; have := t6.2 p; omega
-    have hn : (n : Int) ≤ a ∧ (n : Int) ≤ s.conn := by
+    have hstep : m.step (.data sid n fin) = .ok (if fin then { m with connWin := m.connWin - n, win := tdel m.win sid }
+        else { m with connWin := m.connWin - n, win := tset m.win sid (b - n) }) := by
+      simp only [Mon.step, eb]
+      rw [if_neg g1, if_neg g2, if_neg g3]
+    refine ⟨_, hstep, ?_⟩
+    have c32 : IsInt32 (s.conn - n) := by
+      unfold IsInt32 at *
       by_cases p : 0 < n
-      · exact t6.2 p
-      · have : n = 0 := by omega
-        subst this
-        unfold IsInt32 at *
-        constructor
-        · simp; unfold maxWindow at *; omega
-        · simp
-          rcases strInv_cases (h8 sid) with ⟨x, _⟩ | ⟨_, _, _, _, _, _, _⟩
-          · rw [ea] at x; cases x
-          · sorry
-    sorry
+      · have := t6.2 p; omega
+      · have : (n : Int) = 0 := by omega
+        omega
+    have a32 : IsInt32 (a - n) ∧ s.initWin - maxWindow ≤ a - n := by
+      unfold IsInt32 at *
+      by_cases p : 0 < n
+      · have := t6.2 p; unfold maxWindow at *; omega
+      · have : (n : Int) = 0 := by omega
+        omega
+    cases fin with
+    | true =>
+      simp only [if_true]
+      refine ⟨by simp [t5, hd, hm], fun _ => ⟨by simp [t4, h1], by simp [t4, h2], by simp [t3, h3], by simp [t3, h4],
+        by simp [t3, h5], by simp only [t1]; omega, by simp only [t1]; exact c32, ?_⟩⟩
+      intro j
+      simp only [tget_tdel, t3]
+      by_cases hj : sid = j
+      · simp [hj, StrInv]
+      · simp only [hj, if_false, t2]; exact h8 j
+    | false =>
+      simp only [Bool.false_eq_true, if_false]
+      refine ⟨by simp [t5, hd, hm], fun _ => ⟨by simp [t4, h1], by simp [t4, h2], by simp [t3, h3], by simp [t3, h4],
+        by simp [t3, h5], by simp only [t1]; omega, by simp only [t1]; exact c32, ?_⟩⟩
+      intro j
+      simp only [tget_tset, t3, t2]
+      by_cases hj : sid = j
+      · subst hj
+        simp only [if_true, eb, Option.map_some, StrInv]
+        exact ⟨by omega, a32.1, a32.2⟩
+      · simp only [hj, if_false]; exact h8 j
+
+theorem took_zero {s : Send} (sid : Nat) (a : Int) (ea : tget s.wins sid = some a) (hmf : 0 ≤ s.maxFrame) :
+    Took s s sid a 0 := by
+  refine ⟨by simp, ?_, rfl, rfl, rfl, by simpa using hmf, fun h => absurd h (by omega)⟩
+  intro j
+  by_cases hj : sid = j
+  · subst hj; simp [ea]
+  · simp [hj]
+
+/-- `FrameWriteRequest.Consume`: the piece it hands to the writer is within the stream window, the
+connection window, the frame-size limit and the caller's limit, and exactly that much is taken. -/
+theorem consume_took {s s' : Send} (sid len : Nat) (limit a : Int) (n : Nat)
+    (h7 : IsInt32 s.conn) (ha : IsInt32 a) (hmf : 0 ≤ s.maxFrame) (ea : tget s.wins sid = some a)
+    (hc : s.consume sid len limit = some (n, s')) :
+    Took s s' sid a n ∧ n ≤ len ∧ (0 < n → (n : Int) ≤ limit) := by
+  unfold Send.consume at hc
+  simp only [ea] at hc
+  by_cases hl : len = 0
+  · simp only [hl, if_true, Option.some.injEq, Prod.mk.injEq] at hc
+    obtain ⟨rfl, rfl⟩ := hc
+    exact ⟨took_zero sid a ea hmf, by omega, fun h => absurd h (by omega)⟩
+  · simp only [hl, if_false] at hc
+    generalize hal : (if s.maxFrame < (if limit < (s.flow a).available then limit else (s.flow a).available)
+        then s.maxFrame else (if limit < (s.flow a).available then limit else (s.flow a).available)) = allowed at hc
+    have hbnd : allowed ≤ s.maxFrame ∧ allowed ≤ limit ∧ allowed ≤ (s.flow a).available := by
+      subst hal; split <;> split <;> omega
+    have av := avail_le s a
+    by_cases hz : allowed ≤ 0
+    · simp [hz] at hc
+    · simp only [hz, if_false] at hc
+      by_cases hgt : (len : Int) > allowed
+      · simp only [hgt, if_true] at hc
+        rw [take_some h7 sid a allowed ha (by omega) hbnd.2.2] at hc
+        simp only [Option.map_some, Option.some.injEq, Prod.mk.injEq] at hc
+        obtain ⟨rfl, rfl⟩ := hc
+        have e : ((allowed.toNat : Nat) : Int) = allowed := Int.toNat_of_nonneg (by omega)
+        have tk := took_of_take (s := s) sid a allowed.toNat ea (by rw [e]; exact ⟨hbnd.1, fun _ => by omega⟩)
+        rw [e] at tk
+        exact ⟨tk, by omega, fun _ => by omega⟩
+      · simp only [hgt, if_false] at hc
+        rw [take_some h7 sid a len ha (by omega) (by omega)] at hc
+        simp only [Option.map_some, Option.some.injEq, Prod.mk.injEq] at hc
+        obtain ⟨rfl, rfl⟩ := hc
+        exact ⟨took_of_take sid a len ea ⟨by omega, fun _ => by omega⟩, by omega, fun _ => by omega⟩
+
+/-- `awaitFlowControl`: min(maxBytes, available, maxFrameSize), taken from both windows. -/
+theorem await_took {s s' : Send} (sid maxBytes : Nat) (a : Int) (n : Nat)
+    (h7 : IsInt32 s.conn) (ha : IsInt32 a) (hmf : 0 < s.maxFrame) (hmb : 0 < maxBytes) (ea : tget s.wins sid = some a)
+    (hc : s.await sid maxBytes = some (n, s')) :
+    Took s s' sid a n ∧ n ≤ maxBytes ∧ 0 < n := by
+  unfold Send.await at hc
+  simp only [ea] at hc
+  have av := avail_le s a
+  by_cases hp : (s.flow a).available > 0
+  · simp only [hp, if_true] at hc
+    generalize hal : (if (if (s.flow a).available > (maxBytes : Int) then (maxBytes : Int) else (s.flow a).available) > s.maxFrame
+        then s.maxFrame else (if (s.flow a).available > (maxBytes : Int) then (maxBytes : Int) else (s.flow a).available)) = t2 at hc
+    have hbnd : t2 ≤ s.maxFrame ∧ t2 ≤ maxBytes ∧ t2 ≤ (s.flow a).available ∧ 0 < t2 := by
+      subst hal; split <;> split <;> omega
+    rw [take_some h7 sid a t2 ha (by omega) hbnd.2.2.1] at hc
+    simp only [Option.map_some, Option.some.injEq, Prod.mk.injEq] at hc
+    obtain ⟨rfl, rfl⟩ := hc
+    have e : ((t2.toNat : Nat) : Int) = t2 := Int.toNat_of_nonneg (by omega)
+    have tk := took_of_take (s := s) sid a t2.toNat ea (by rw [e]; exact ⟨hbnd.1, fun _ => by omega⟩)
+    rw [e] at tk
+    exact ⟨tk, by omega, by omega⟩
+  · simp [hp] at hc
+
+theorem live_sclose {s : Send} {m : Mon} (h : Live s m) (sid : Nat) :
+    Live { s with wins := tdel s.wins sid } { m with win := tdel m.win sid } := by
+  obtain ⟨h1, h2, h3, h4, h5, h6, h7, h8⟩ := h
+  refine ⟨h1, h2, h3, h4, h5, h6, h7, ?_⟩
+  intro j
+  simp only [tget_tdel]
+  by_cases hj : sid = j
+  · simp [hj, StrInv]
+  · simp only [hj, if_false]; exact h8 j
+
+def wuMon (m : Mon) (sid : Nat) (inc : Int) : Mon :=
+  if sid = 0 then { m with connWin := m.connWin + inc }
+  else match tget m.win sid with
+    | some w => { m with win := tset m.win sid (w + inc) }
+    | none => m
+
+theorem mon_step_wu {m : Mon} (hm : m.dead = false) (sid : Nat) (inc : Int) (h0 : ¬ inc < 0) :
+    m.step (.wu sid inc) = .ok (wuMon m sid inc) := by
+  simp only [Mon.step, hm, h0, Bool.false_eq_true, or_self, if_false, wuMon]
+  by_cases hs : sid = 0
+  · simp [hs]
+  · simp only [hs, if_false]
+    cases tget m.win sid <;> rfl
+
+/-- a WINDOW_UPDATE the endpoint ignores (cannot occur on the wire: the increment has 31 bits) only raises the peer's view -/
+theorem live_wu_ignored {s : Send} {m : Mon} (h : Live s m) (sid : Nat) (inc : Int) (h0 : 0 ≤ inc) :
+    Live s (wuMon m sid inc) := by
+  obtain ⟨h1, h2, h3, h4, h5, h6, h7, h8⟩ := h
+  unfold wuMon
+  by_cases hs : sid = 0
+  · simp only [hs, if_true]; exact ⟨h1, h2, h3, h4, h5, by simp only; omega, h7, h8⟩
+  · simp only [hs, if_false]
+    cases hw : tget m.win sid with
+    | none => exact ⟨h1, h2, h3, h4, h5, h6, h7, h8⟩
+    | some w =>
+      refine ⟨h1, h2, h3, h4, h5, h6, h7, ?_⟩
+      intro j
+      simp only [tget_tset]
+      by_cases hj : sid = j
+      · subst hj
+        rcases strInv_cases (h8 sid) with ⟨x, y⟩ | ⟨a, b, ea, eb, hab, ha, hlo⟩
+        · rw [hw] at y; cases y
+        · rw [hw] at eb; cases eb
+          simp only [if_true, hw, ea, Option.map_some, StrInv]
+          exact ⟨by omega, ha, hlo⟩
+      · simp only [hj, if_false]; exact h8 j
+
+/-- **Simulation step**: whatever the peer, the application and the scheduler do next, the wire events
+the mechanism produces are accepted by the monitor, and the relation is kept. -/
+theorem step_sim (r : Role) {s : Send} {m : Mon} (h : Inv s m) (a : Act) :
+    ∃ m', m.run (s.step r a).2 = .ok m' ∧ Inv (s.step r a).1 m' := by
+  cases hd : s.dead with
+  | true =>
+    have hm : m.dead = true := by rw [← h.dead]; exact hd
+    cases a with
+    | settings mfs iw => exact ⟨m, by simp [Send.step, hd, Mon.run, Mon.step, hm], by simpa [Send.step, hd] using h⟩
+    | wu sid inc => exact ⟨m, by simp [Send.step, hd, Mon.run, Mon.step, hm], by simpa [Send.step, hd] using h⟩
+    | sopen sid => exact ⟨m, by simp [Send.step, hd, Mon.run, Mon.step, hm], by simpa [Send.step, hd] using h⟩
+    | sclose sid =>
+      exact ⟨{ m with win := tdel m.win sid }, by simp [Send.step, Mon.run, Mon.step], inv_dead hd hm⟩
+    | send sid len fin limit => exact ⟨m, by simp [Send.step, hd, Mon.run], by simpa [Send.step, hd] using h⟩
+  | false =>
+    have hm : m.dead = false := by rw [← h.dead]; exact hd
+    have L := h.live hd
+    cases a with
+    | settings mfs iw =>
+      obtain ⟨m', e, i⟩ := settings_sim r hd hm L mfs iw
+      refine ⟨m', ?_, ?_⟩
+      · simpa [Send.step, hd, Mon.run, Mon.step, hm] using e
+      · simpa [Send.step, hd] using i
+    | wu sid inc =>
+      by_cases hig : inc < 0 ∨ inc > maxWindow
+      · by_cases hneg : inc < 0
+        · exact ⟨m, by simp [Send.step, hd, Mon.run, Mon.step, hneg], by simpa [Send.step, hd, hig] using h⟩
+        · refine ⟨wuMon m sid inc, ?_, ?_⟩
+          · simp only [Send.step, hd, hig, Bool.false_eq_true, false_or, if_true, Mon.run, mon_step_wu hm sid inc hneg]
+          · simp only [Send.step, hd, hig, Bool.false_eq_true, false_or, if_true]
+            exact ⟨by simp [wuMon, hd, hm]; split <;> (try split) <;> simp [hm], fun _ => live_wu_ignored L sid inc (by omega)⟩
+      · have h0 : 0 ≤ inc := by omega
+        have hM : inc ≤ maxWindow := by omega
+        obtain ⟨m', e, i⟩ := wu_sim hd hm L sid inc h0 hM
+        refine ⟨m', ?_, ?_⟩
+        · simpa [Send.step, hd, hig] using e
+        · simpa [Send.step, hd, hig] using i
+    | sopen sid =>
+      cases hw : tget s.wins sid with
+      | some a => exact ⟨m, by simp [Send.step, hd, hw, Mon.run], by simpa [Send.step, hd, hw] using h⟩
+      | none =>
+        obtain ⟨h1, h2, h3, h4, h5, h6, h7, h8⟩ := L
+        have hmw : tget m.win sid = none := by
+          rcases strInv_cases (h8 sid) with ⟨_, y⟩ | ⟨a, b, ea, _⟩
+          · exact y
+          · rw [hw] at ea; cases ea
+        have i0 : IsInt32 (0 : Int) := by unfold IsInt32; omega
+        have iiw : IsInt32 s.initWin := by unfold IsInt32; unfold maxWindow at h5; omega
+        have sp := outflow_add_spec (Outflow.mk 0 (some s.conn)) s.initWin i0 iiw
+        have hr : ((Outflow.mk 0 (some s.conn)).add s.initWin).1 = true := sp.1.2 (by simpa using iiw)
+        have e := sp.2.1 hr
+        refine ⟨{ m with win := (sid, m.initWin) :: m.win }, ?_, ?_⟩
+        · simp [Send.step, hd, hw, Mon.run, Mon.step, hm, hmw]
+        · simp only [Send.step, hd, hw, Bool.false_eq_true, if_false, e]
+          refine ⟨by simp [hm], fun _ => ⟨h1, h2, h3, h4, h5, h6, h7, ?_⟩⟩
+          intro j
+          simp only [tget_cons]
+          by_cases hj : sid = j
+          · simp only [hj, if_true, StrInv]
+            exact ⟨by omega, by simpa using iiw, by unfold maxWindow; omega⟩
+          · simp only [hj, if_false]; exact h8 j
+    | sclose sid =>
+      exact ⟨{ m with win := tdel m.win sid }, by simp [Send.step, Mon.run, Mon.step],
+        ⟨by simp [Send.step, hd, hm], fun _ => live_sclose L sid⟩⟩
+    | send sid len fin limit =>
+      have hmf0 : 0 ≤ s.maxFrame := by have := L.mfmin; unfold minMaxFrame at this; omega
+      cases hw : tget s.wins sid with
+      | none =>
+        refine ⟨m, ?_, ?_⟩
+        · cases r <;> simp [Send.step, hd, Send.consume, Send.await, hw, Mon.run] <;> split <;> simp [Mon.run]
+        · cases r <;> simp only [Send.step, hd, Send.consume, Send.await, hw, Bool.false_eq_true, if_false] <;>
+            (try split) <;> exact h
+      | some a =>
+        have ha : IsInt32 a := by
+          rcases strInv_cases (L.str sid) with ⟨x, _⟩ | ⟨a', b, ea, _, _, ha, _⟩
+          · rw [hw] at x; cases x
+          · rw [hw] at ea; cases ea; exact ha
+        cases r with
+        | server =>
+          cases hc : s.consume sid len limit with
+          | none => exact ⟨m, by simp [Send.step, hd, hc, Mon.run], by simpa [Send.step, hd, hc] using h⟩
+          | some p =>
+            obtain ⟨n, s'⟩ := p
+            have tk := (consume_took sid len limit a n L.conn32 ha hmf0 hw hc).1
+            obtain ⟨m', e, i⟩ := data_sim hd hm L sid a n (fin && decide (n = len)) hw tk
+            exact ⟨m', by simp [Send.step, hd, hc, Mon.run, e], by simpa [Send.step, hd, hc] using i⟩
+        | client =>
+          by_cases hl : len = 0
+          · obtain ⟨m', e, i⟩ := data_sim hd hm L sid a 0 fin hw (took_zero sid a hw hmf0)
+            exact ⟨m', by simp [Send.step, hd, hl, hw, Mon.run, e], by simpa [Send.step, hd, hl, hw] using i⟩
+          · cases hc : s.await sid len with
+            | none => exact ⟨m, by simp [Send.step, hd, hl, hc, Mon.run], by simpa [Send.step, hd, hl, hc] using h⟩
+            | some p =>
+              obtain ⟨n, s'⟩ := p
+              have tk := (await_took sid len a n L.conn32 ha (by have := L.mfmin; unfold minMaxFrame at this; omega)
+                (by omega) hw hc).1
+              obtain ⟨m', e, i⟩ := data_sim hd hm L sid a n (fin && decide (n = len)) hw tk
+              exact ⟨m', by simp [Send.step, hd, hl, hc, Mon.run, e], by simpa [Send.step, hd, hl, hc] using i⟩
+
+theorem mon_run_append (m : Mon) (a b : List Ev) :
+    m.run (a ++ b) = match m.run a with | .ok m1 => m1.run b | .error x => .error x := by
+  induction a generalizing m with
+  | nil => rfl
+  | cons e t ih =>
+    simp only [List.cons_append, Mon.run]
+    cases m.step e with
+    | ok m1 => exact ih m1
+    | error x => rfl
+
+theorem run_sim (r : Role) : ∀ (acts : List Act) {s : Send} {m : Mon}, Inv s m →
+    ∃ m', m.run (s.run r acts).2 = .ok m' ∧ Inv (s.run r acts).1 m'
+  | [], s, m, h => ⟨m, rfl, h⟩
+  | a :: t, s, m, h => by
+    obtain ⟨m1, e1, i1⟩ := step_sim r h a
+    obtain ⟨m2, e2, i2⟩ := run_sim r t i1
+    refine ⟨m2, ?_, ?_⟩
+    · simp only [Send.run, mon_run_append, e1, e2]
+    · simpa [Send.run] using i2
 
 end NetVerif.Proofs.SendWin
